@@ -136,7 +136,7 @@ func (ctx context) generateLinkTable(ta sql.Table, cols columnsCode) (out []gen.
 	for _, key := range ta.ForeignKeys() {
 		fieldName := key.F.Field.Name()
 		columnName := sqlColumnName(key.F)
-		varName := gen.ToLowerFirst(fieldName)
+		varName := paramName(fieldName)
 		keyTypeName := ctx.typeName(key.TargetIDType())
 
 		if ctx.generateArrayConverter(key) {
